@@ -275,3 +275,127 @@ def run(prog, chk):
             r3.ok("write_char:case %d" % v, "-> %s" % want_writer[v])
         else:
             r3.violation(wc.file, wc.name, wc.line, "write_char:case %d" % v, "case %d reaches %s, expected %s" % (v, sorted(got), want_writer.get(v)))
+
+    delimiter_agreement(prog, chk)
+    r5 = chk.rule("R5-monotone-accumulators", ACC_DESC, floor=3)
+    accumulator_rule(prog, r5)
+
+
+def delimiter_agreement(prog, chk):
+    """R4: the evidence tested on the way to recommending delimiter D is evidence about D: on every guard whose *true* outcome
+    must be passed to reach `u_strcpy(result->delim, D)`, a delimiter array that is mentioned is D itself, and a per-character
+    count that is tested is the count of D's own character."""
+    r4 = chk.rule("R4-delimiter-evidence", "guards passed (true outcome) on the way to recommending a delimiter mention only that "
+                  "delimiter's array and the count of its own character", floor=6)
+    an = prog.fn("cif_analyze_string")
+    first = {}
+    for (b, i, r, n) in an.eval_sites("decl"):
+        for v in n.get("vars", []):
+            if v["name"].endswith("_delim") and v.get("init") is not None:
+                el = strip(v["init"]).get("elems") or []
+                if el and const(el[0]) is not None:
+                    first[v["name"]] = const(el[0])
+    if len(first) < 4:
+        # static locals may be hoisted out of the CFG: read them from the function's locals table
+        for l in an.locals:
+            if l["name"].endswith("_delim") and l.get("init") is not None:
+                el = strip(l["init"]).get("elems") or []
+                if el and const(el[0]) is not None:
+                    first[l["name"]] = const(el[0])
+    if len(first) < 4:
+        raise Broken("delimiter arrays of cif_analyze_string not found (%s)" % sorted(first))
+    quote_chars = {v for k, v in first.items() if k != "text_delim"}
+    copies = [(b.id, i, n) for (b, i, r, n) in an.calls_to("u_strcpy")
+              if (path(strip(n["args"][0])) or "").endswith("->delim") and path(strip(n["args"][1])) in first]
+    if len(copies) < 6:
+        raise Broken("only %d delimiter recommendations found in cif_analyze_string" % len(copies))
+    branches = [(blk, cfgq.cond_of(an, blk)) for blk in an.blocks.values() if len(blk.succs) == 2 and cfgq.cond_of(an, blk) is not None]
+    for (bid, idx, n) in copies:
+        d = path(strip(n["args"][1]))
+        bad = []
+        n_guards = 0
+        for blk, c in branches:
+            if not cfgq.must_pass_edge(an, bid, [(blk.id, 0)]):
+                continue
+            for x in walk(c):
+                if x.get("k") == "ref" and x.get("name") in first:
+                    n_guards += 1
+                    if x["name"] != d:
+                        bad.append((blk.term.get("l"), "mentions %s" % x["name"]))
+                if x.get("k") == "index" and path(strip(x.get("base"))) == "char_counts":
+                    cv = const(x.get("idx"))
+                    if cv in quote_chars:
+                        n_guards += 1
+                        if cv != first[d]:
+                            bad.append((blk.term.get("l"), "tests the count of character 0x%02x" % cv))
+        key = "recommend:%s@L%s" % (d, n.get("l"))
+        if d == "text_delim":
+            r4.ok(key, "fallback: no evidence required")
+        elif bad:
+            r4.violation(an.file, an.name, n.get("l"), "delimiter-evidence:%s" % d,
+                         "%s is recommended at L%s, but a guard that must hold on the way there %s: the suitability test is "
+                         "made for a different delimiter than the one recommended" % (d, n.get("l"), "; ".join("L%s %s" % b for b in bad[:3])))
+        elif n_guards == 0:
+            r4.unproved(key, "no delimiter evidence found on the guards")
+        else:
+            r4.ok(key, "%d evidence mention(s), all about %s" % (n_guards, d))
+
+
+# statistics of cif_analyze_string that quantify over the whole string (from the documentation of struct
+# cif_string_analysis_s): field -> how its source variable may be updated while scanning
+ACCUMULATORS = {
+    "contains_text_delim": "exists",     # some newline is followed by a semicolon
+    "has_trailing_ws": "exists",         # some line ends in a blank
+    "max_semi_run": "max",               # longest run of semicolons
+}
+ACC_DESC = ("the variables behind the whole-string statistics (contains_text_delim, has_trailing_ws: `exists`; max_semi_run: `max`) are "
+            "only updated monotonically: `v = v || e` / a non-zero constant, resp. `v = w` under the guard `w > v`")
+
+
+def accumulator_rule(prog, rule):
+    an = prog.fn("cif_analyze_string")
+    src = {}
+    for (b, i, r, n) in an.eval_sites("asg"):
+        lp = path(strip(n.get("lhs"))) or ""
+        for fld in ACCUMULATORS:
+            if lp == "result->" + fld:
+                v = path(strip(n.get("rhs")))
+                if v:
+                    src[fld] = v
+    if set(src) != set(ACCUMULATORS):
+        raise Broken("result statistics not stored from a local in cif_analyze_string: %s" % sorted(set(ACCUMULATORS) - set(src)))
+    for fld, v in sorted(src.items()):
+        kind = ACCUMULATORS[fld]
+        stores = [(b.id, i, n) for (b, i, r, n) in an.eval_sites("asg") if path(strip(n.get("lhs"))) == v]
+        if not stores:
+            raise Broken("%s is never assigned" % v)
+        bad = None
+        for (bid, idx, n) in stores:
+            rhs = strip(n.get("rhs"))
+            if kind == "exists":
+                c = const(rhs)
+                ok = (c is not None and c != 0) or (
+                    n.get("op") in ("|=",)) or (
+                    isinstance(rhs, dict) and rhs.get("k") == "bin" and rhs.get("op") in ("||", "|")
+                    and v in (path(strip(rhs.get("lhs"))), path(strip(rhs.get("rhs")))))
+            else:
+                w = path(rhs)
+
+                def gt(cnd):
+                    c = strip(cnd)
+                    if isinstance(c, dict) and c.get("k") == "bin" and c.get("op") in (">", "<"):
+                        l, rr = path(strip(c.get("lhs"))), path(strip(c.get("rhs")))
+                        if (c["op"] == ">" and (l, rr) == (w, v)) or (c["op"] == "<" and (l, rr) == (v, w)):
+                            return "true"
+                    return None
+                ge = cfgq.guard_edges(an, gt)
+                ok = bool(w) and bool(ge) and cfgq.must_pass_edge(an, bid, ge)
+            if not ok:
+                bad = n
+        key = "%s<-%s" % (fld, v)
+        if bad is not None:
+            rule.violation(an.file, an.name, bad.get("l"), "non-monotone:%s" % v,
+                           "`%s` feeds result->%s, a statistic over the whole string (%s), but the update at L%s can lower it "
+                           "again: what was found on an earlier line is forgotten" % (v, fld, kind, bad.get("l")))
+        else:
+            rule.ok(key, "%d update(s), all monotone (%s)" % (len(stores), kind))
